@@ -277,6 +277,19 @@ def _eval_all(mod, cases):
         return pool.map(_eval_one, cases, chunksize=max(1, len(cases) // (n * 8)))
 
 
+def _abridge(x, max_list=24, max_str=300):
+    """evidence samples are for a reader: long byte arrays / strings are abridged (the full case is in the replay when it matters)"""
+    if isinstance(x, dict):
+        return {k: _abridge(v, max_list, max_str) for k, v in list(x.items())[:40]}
+    if isinstance(x, (list, tuple)):
+        if len(x) > max_list:
+            return [_abridge(v, max_list, max_str) for v in x[:max_list]] + [f"... ({len(x) - max_list} more)"]
+        return [_abridge(v, max_list, max_str) for v in x]
+    if isinstance(x, str) and len(x) > max_str:
+        return x[:max_str] + f"... ({len(x) - max_str} more chars)"
+    return x
+
+
 class Machinery(Exception):
     pass
 
@@ -434,7 +447,7 @@ def run_check(mod, tier, seed, replay=None):
             "theorems": proof["theorems"], "broken": proof["broken"],
             "gen_changed_this_run": gen_changed, "gen_differs_from_committed": committed_diff, "gen_error": gen_error,
             "evaluations": stats["evaluations"], "distinct_nontrivial": len(stats["nontrivial"]),
-            "rule": getattr(mod, "RULE", ""), "samples": samples[:6] or [{"note": "no cases"}],
+            "rule": getattr(mod, "RULE", ""), "samples": _abridge(samples[:6]) or [{"note": "no cases"}],
             "exhaustive": bool(getattr(mod, "EXHAUSTIVE", {}).get(tier, False)),
             "case_kinds": stats["kinds"], "compared_with_lean_model": stats["model_compared"],
             "compared_with_lean_spec": stats["spec_compared"], "compared_with_python_oracle": stats["oracle_compared"],
